@@ -96,9 +96,14 @@ def _continued(case, ctx, d, fk, k, payload, it0, n_it, c, labels, keys):
         minipcn.step_budget = 400
         try:
             with cc.WriteLog() as lg:
-                A = Aspire.resume_from_file(path, log_likelihood=P.log_likelihood, log_prior=P.log_prior)
                 try:
-                    with A.auto_checkpoint(path, every=c):  # the documented way to keep checkpointing, with the same cadence
+                    if k % 2 == 0:
+                        A = Aspire.resume_from_file(path, log_likelihood=P.log_likelihood, log_prior=P.log_prior)
+                        with A.auto_checkpoint(path, every=c):  # the documented way to keep checkpointing, with the same cadence
+                            A.sample_posterior(**P.sample_kwargs(None, None, None))
+                    else:  # the cadence handed over as an override of the resumed call
+                        A = Aspire.resume_from_file(path, log_likelihood=P.log_likelihood, log_prior=P.log_prior,
+                                                    resume_kwargs={"checkpoint_every": c})
                         A.sample_posterior(**P.sample_kwargs(None, None, None))
                     raised = False
                 except InjectedFault:
